@@ -122,3 +122,18 @@ Definition all_windows (n : Z) : list bbox :=
   let es := zrange 0 (Z.to_nat (n + 1)) in
   flat_map (fun i0 => flat_map (fun i1 => if i0 <=? i1 then
      flat_map (fun j0 => flat_map (fun j1 => if j0 <=? j1 then [(i0, i1, j0, j1)] else []) es) es else []) es) es.
+
+Definition cksum_set (l : list ipixel) : Z :=
+  sumZ (map (fun r => (1 + 7 * row (snd r) + 131 * col (snd r)) * val (snd r)) l).
+Definition cksum_ord (l : list ipixel) : Z :=
+  sumZ (map (fun kr => (fst kr + 1) * ((1 + 7 * row (snd (snd kr)) + 131 * col (snd (snd kr))) * val (snd (snd kr)) + 17 * fst (snd kr)))
+            (enumerate l)).
+(** per window: (dense checksum, sparse checksum, sparse entry count, pixel-frame checksum); -1 = the engine raised *)
+Definition window_cksums (epx : list ipixel) (off : list Z) (cs : Z) (fill : bool) (bb : bbox) : Z * Z * Z * Z :=
+  let p := direct_query epx off (get_spans off cs) bb in
+  match matrix_records epx off cs fill Dense bb with
+  | None => (-1, -1, -1, cksum_ord p)
+  | Some o => (cksum_dense (dense_of o bb), cksum_set o, zlen o, cksum_ord p)
+  end.
+Definition all_window_cksums (n : Z) (px : list pixel) (off : list Z) (cs : Z) (fill : bool) : list (Z * Z * Z * Z) :=
+  map (window_cksums (epx_of px) off cs fill) (all_windows n).
